@@ -105,7 +105,11 @@ def service(flavour):
                 self = __new__(cls, *args, **kwargs)
             # a subclass may be declared a service again, e.g. for another flavour:
             # only the most derived declaration defines the unit of an instance
-            if _service_declaration(cls) is __new_service__:
+            # ... and an instance that ``__new__`` handed out before keeps its unit
+            if (
+                _service_declaration(cls) is __new_service__
+                and getattr(self, "__service_unit__", None) is None
+            ):
                 service_unit = ServiceUnit(self, flavour)
                 self.__service_unit__ = service_unit
             return self
